@@ -145,7 +145,7 @@ func verifAbstractBytes(n int) []byte {
 	return make([]byte, n)
 }
 
-func verifYield()                          { verifSched() }
+func verifYield()                          {} // the instrumenter gates the statement that calls it
 func verifObserve(tag string, vals ...any) {}
 func verifThreads(on bool)                 {}
 func verifTimers(on bool)                  {}
@@ -247,6 +247,20 @@ func verifSchInit() {
 	}()
 }
 
+// verifMainHere binds logical thread 0 to the calling goroutine (the generated replay test calls it first: package
+// initialisers may already have passed a gate on the runtime's main goroutine, which is not the test's goroutine).
+func verifMainHere() {
+	verifSch.mu.Lock()
+	verifSchInit()
+	for g, t := range verifSch.ids {
+		if t == 0 {
+			delete(verifSch.ids, g)
+		}
+	}
+	verifSch.ids[verifGoID()] = 0
+	verifSch.mu.Unlock()
+}
+
 // verifSpawn allocates the logical id of a goroutine about to be started (called by the parent).
 func verifSpawn() int {
 	verifSch.mu.Lock()
@@ -288,6 +302,10 @@ func verifSched() {
 		return
 	}
 	tid, known := verifSch.ids[verifGoID()]
+	if verifos.Getenv("VERIF_SCHED_TRACE") != "" {
+		_, file, line, _ := verifruntime.Caller(1)
+		println("VERIF-SCHED arrive goid", verifGoID(), "tid", tid, "known", known, "pos", verifSch.pos, "veclen", len(verifSch.vec), file, line)
+	}
 	if !known {
 		verifSch.mu.Unlock()
 		return
